@@ -1,0 +1,18 @@
+//go:build verif
+
+package swagen
+
+// Contracts for gvc (see /verif/DESIGN.md). Comment-only: this file adds no code to any build.
+
+//@ func GenerateSpec props C08,C11,C14 havocs
+//@ requires config != nil && models != nil
+//@ mayemit validatedSpec
+//@ ensures gate: implies(result1 == nil, evcount(validatedSpec) > old(evcount(validatedSpec)) && evlast(validatedSpec, 0))
+//@ ensures v30first: implies(result1 == nil && config.OpenAPI == "3.1.0", evcount(validatedSpec) == old(evcount(validatedSpec))+2)
+
+//@ func GenerateAndOutputSpec props C08,C20,C10,C14 havocs
+//@ requires config != nil && models != nil
+//@ mayemit validatedSpec, wroteFile
+//@ ensures once: evcount(wroteFile) <= old(evcount(wroteFile))+1
+//@ ensures gate: implies(evcount(wroteFile) > old(evcount(wroteFile)), evcount(validatedSpec) > old(evcount(validatedSpec)) && evlast(validatedSpec, 0) && evlast(wroteFile, 1) == 420)
+//@ ensures ok: implies(result == nil, evcount(wroteFile) == old(evcount(wroteFile))+1)
